@@ -192,6 +192,7 @@ def run_impl(d):
         Z = quad_k(r, 0)
         lin.chk(fails, ["C20"], "truncated mean", "TruncatedGaussianPDF.get_mean", mean[r], quad_k(r, 1) / Z)
         lin.chk(fails, ["C20"], "truncated variance", "TruncatedGaussianPDF.get_variance", var[r], quad_k(r, 2) / Z - (quad_k(r, 1) / Z) ** 2)
+        lin.chk(fails, ["C20"], "truncated standard deviation", "TruncatedGaussianPDF.get_std", np.asarray(tp.get_std())[r, 0] ** 2, var[r])
         expc = np.array([dens(r, float(x)) / Z if inl[r][i] else 0.0 for i, x in enumerate(d["xs"])])
         lin.chk(fails, ["C20"], "density = u(x) / truncated mass inside, zero outside (%s)" % d["pdf"], "TruncatedGaussianPDF.__call__", call[r], expc)
     lin.chk(fails, ["C20"], "normalised truncated density integrates to one", "TruncatedGaussianPDF.integrate", one, np.ones(R))
